@@ -32,4 +32,21 @@ def connOK (good complete : Bool) (descs : List Desc) (out : List Tok) (served :
   let s := refServed descs
   if good && complete then out == r && served == s
   else (out.isPrefixOf r) && (served.isPrefixOf s)
+/-- Fairness oracle for runs in which every call of every connection was buffered before the server
+    ran and the connection set is fixed: `log` = connection ids in the order the service was invoked,
+    `total i` = number of calls connection `i` sends. Between two consecutive services of the same
+    connection, every other connection that still had an unserved call must have been served. -/
+def fairOK (total : Nat → Nat) (ids : List Nat) (log : List Nat) : Bool :=
+  let rec go (fuel : Nat) (before : List Nat) (rest : List Nat) : Bool :=
+    match fuel, rest with
+    | 0, _ => true
+    | _, [] => true
+    | fuel+1, a :: rest' =>
+      -- next service of `a`
+      let between := rest'.takeWhile (· != a)
+      let again := between.length < rest'.length
+      let servedBefore (b : Nat) : Nat := ((before ++ [a]).filter (· == b)).length
+      let ok := !again || ids.all fun b => b == a || servedBefore b ≥ total b || between.contains b
+      ok && go fuel (before ++ [a]) rest'
+  go log.length [] log
 end SpecSrv
